@@ -200,3 +200,7 @@ func setAt(root any, p []any, nv any) any {
 	return root
 }
 
+
+func newDoc(id string, data any) *bkl.Document {
+	return bkl.NewDocumentWithData(id, core.Clone(data))
+}
